@@ -501,6 +501,29 @@ func arbitrary(c *explore.Ctx) {
 		} else if stdjson.Valid(doc) {
 			checkValid(c, doc, "short")
 		}
+		// the same bytes as a window of a larger buffer: what the spare capacity holds is not part of the document
+		if pv == nil {
+			first, ferr, _, _ := run(json.NewTokenizer(doc), doc, 0)
+			for _, fill := range []byte{'"', '\\', '0', ']', 'e'} {
+				big := bytes.Repeat([]byte{fill}, len(doc)+16)
+				copy(big, doc)
+				win := big[:len(doc)]
+				got, gerr, gpv, gps := run(json.NewTokenizer(win), win, 0)
+				n++
+				if gpv != nil {
+					c.Fail("panic:"+gps+":"+explore.PanicClass(gpv), "Tokenizer panicked on %q followed by %q bytes in the spare capacity of the input: %v", doc, fill, gpv)
+				} else if (gerr == nil) != (ferr == nil) || len(got) != len(first) {
+					c.Fail("spare-capacity-matters", "tokenizing %q gives %d tokens (err %v); with %q bytes in the spare capacity behind it %d tokens (err %v)", doc, len(first), ferr, fill, len(got), gerr)
+				} else {
+					for i := range got {
+						if got[i].raw != first[i].raw || got[i].depth != first[i].depth || got[i].index != first[i].index {
+							c.Fail("spare-capacity-matters", "tokenizing %q: token %d differs when %q bytes follow in the spare capacity of the input", doc, i, fill)
+							break
+						}
+					}
+				}
+			}
+		}
 		if len(buf) == maxL {
 			return
 		}
@@ -704,7 +727,7 @@ func Spec() *explore.Spec {
 				return 0
 			}, Doc: "every document of a grammar with nesting depth <= 2 and <= 2 members per container (thorough: 3 members), 18 scalars, empty containers inside non-empty ones x {no white space; each of 6 white space forms (space, tab, LF, CR, CRLF, a mix) in every gap and around the document}: token-by-token equality with a reference model (validated against encoding/json's Token stream on every document): Value, Delim, Depth/Index/IsKey of scalars and opening delimiters, in-place Values, Kind, String/Int/Uint/Float/Bool, RawValue predicates, Unquote/AppendUnquote, concatenation == Compact"},
 			{Name: "deep-nesting", ShardDepth: 2, Body: deepNesting, Doc: "valid documents nested 1 .. 10000 deep (21 depths around the powers of two and the limit encoding/json accepts) x {arrays, objects, alternating, mixed with a sibling before each nested container} x 3 innermost values: the token stream equals the model's"},
-			{Name: "arbitrary", ShardDepth: 2, Body: arbitrary, Doc: "all byte strings of length 2..5 (6) over a 24-byte class alphabet: termination, no panic, error stickiness, Reset after error; valid ones checked against the model"},
+			{Name: "arbitrary", ShardDepth: 2, Body: arbitrary, Doc: "all byte strings of length 2..5 (6) over a 24-byte class alphabet: termination, no panic, error stickiness, Reset after error; valid ones checked against the model; each also as a window of a larger buffer whose spare capacity holds quotes, backslashes, digits, closers or letters: same tokens, same error presence"},
 			{Name: "interleaved", ShardDepth: 2, Body: interleaved, Doc: "every history of 0-2 uses of one Tokenizer over 9 documents (complete, truncated, failing at depth, closers of the wrong kind, surplus closers) x {to the end, abandoned} x {left, Reset(nil), reused} followed by two or three tokenizers working through nested documents at the same time in 4 interleavings of their Next calls: each sees exactly its own document's tokens; the pool monitor (deterministic pool, sync shim) reports a stack put back twice or handed to two holders"},
 			{Name: "histories", ShardDepth: 2, Body: histories, Doc: "all sequences of up to 3 uses of one Tokenizer via Reset over 9 documents x {iterate to the end, abandon after 3 or 7 tokens, abandon while another tokenizer holds a pooled stack} followed by a full tokenisation compared with the model (reused and fresh tokenizer)"},
 		},
